@@ -24,10 +24,11 @@ CLASSES = {
     'solve': {'quick': 80, 'thorough': 2500},
     'matrix_text': {'quick': 300, 'thorough': 8000},
     'mirror_pairs': {'quick': 150, 'thorough': 3000},
+    'exact_lattice': {'quick': 300, 'thorough': 6000},
     'hostile_zero_rhs': {'quick': 16, 'thorough': 200},
     'hostile_contradiction': {'quick': 16, 'thorough': 200},
 }
-MIN_EVENTS = {'quick': {'points_judged': 20000, 'assert:same': 350, 'assert:text': 250}}
+MIN_EVENTS = {'quick': {'points_judged': 20000, 'assert:same': 350, 'assert:text': 250, 'exact_boundary_points_judged': 3000}}
 CASE_TIMEOUT = 300
 CMPS = ['=', '<=', '>=', '<', '>']
 
@@ -347,6 +348,106 @@ def run_matrix_text(rng, obs):
         obs.nontrivial = len(both) == 2
 
 
+# --------------------------------------------------------------------------- exact lattice (strictness at the boundary itself)
+import re as _re
+from fractions import Fraction as _F
+_LIT = _re.compile(r'(?<![A-Za-z_0-9.])(\d+\.?\d*(?:[eE][-+]?\d+)?|\.\d+)')
+
+
+def _exact_side(expr, env):
+    return eval(_LIT.sub(lambda m: "F('%s')" % (m.group(0) + ('0' if m.group(0).endswith('.') else '')), expr), {'F': _F, 'abs': abs, 'min': min, 'max': max, '__builtins__': {}}, env)
+
+
+def exact_satisfied(text, names, x):
+    """truth value of a text in exact rational arithmetic (None where a side divides by zero): no boundary band is needed"""
+    env = dict(zip(names, x))
+    try:
+        return all(T.holds(_exact_side(l, env), c, _exact_side(r, env)) for l, c, r in map(T.split, T.lines(text)))
+    except ZeroDivisionError:
+        return None
+
+
+def dyadic_literals(text):
+    for m in _LIT.finditer(text):
+        q = _F(m.group(0) + ('0' if m.group(0).endswith('.') else ''))
+        d = q.denominator
+        if d & (d - 1) or d > 2 ** 20 or abs(q) > 2 ** 30: return False
+    return True
+
+
+def run_exact(rng, obs):
+    """small systems whose coefficients and constants are dyadic rationals, judged in exact arithmetic on a half-integer lattice and at points
+    constructed exactly ON each boundary: strict and non-strict comparators differ only there"""
+    from mystic.symbolic import simplify
+    n = rng.randint(1, 3)
+    variables, names = names_for(rng, n)
+    C = [1.0, 2.0, 4.0, 0.5, -1.0, -2.0, -4.0, -0.5, -1.0, -2.0]
+    form = rng.choice(['linear', 'linear', 'linear', 'quot', 'prod'] if n >= 2 else ['linear'])
+    lines, used = [], set()
+    if form == 'linear':
+        for _ in range(rng.randint(1, min(3, n + 1))):
+            a = [rng.choice(C) if rng.random() < 0.7 else 0.0 for _ in range(n)]
+            if not any(a): a[rng.randrange(n)] = rng.choice(C)
+            key = tuple(c / next(v for v in a if v) for c in a)        # lines over one and the same (scaled) expression are the business of the mirror classes
+            if key in used: continue
+            used.add(key)
+            b = rng.choice([0.0, 1.0, -3.0, 2.5, 0.5, -0.5, 6.0])
+            lines.append('%s %s %s' % (' + '.join('%s*%s' % (fmt(c), v) for c, v in zip(a, names) if c != 0), rng.choice(['<', '>', '<=', '>=', '<', '>']), fmt(b)))
+    else:
+        i, j = rng.sample(range(n), 2)
+        c = rng.choice(C); d = rng.choice([4.0, -2.0, 1.0, 0.5, -8.0])
+        cmp = rng.choice(['<', '>', '<=', '>='])
+        lines.append(('%s*%s/%s %s %s' if form == 'quot' else '%s*%s*%s %s %s') % (fmt(c), names[i], names[j], cmp, fmt(d)))
+    text = '\n'.join(lines)
+    obs.desc = {'text': text, 'variables': variables if isinstance(variables, str) else names, 'form': form}
+    try:
+        res = simplify(text, variables=variables, all=True)
+    except Exception as e:
+        obs.skip('simplify raised %s' % type(e).__name__); obs.event('simplify_raised'); return
+    cases = res if isinstance(res, tuple) else (res,)
+    if not all(isinstance(cc, str) and cc.strip() for cc in cases):
+        obs.skip('no result'); return
+    if not all(dyadic_literals(cc) for cc in cases):
+        obs.event('output_not_exactly_representable'); obs.skip('output coefficients are not dyadic'); return
+    grid = [_F(k, 2) for k in range(-12, 13)]
+    pts = [[rng.choice(grid) for _ in range(n)] for _ in range(250)]
+    # points exactly on a boundary of the INPUT: solve each line for one of its variables at a lattice point (exact rational arithmetic)
+    onb = 0
+    for ln in lines:
+        l, cmp, r = T.split(ln)
+        for _ in range(40):
+            x = [rng.choice(grid) for _ in range(n)]
+            k = rng.randrange(n)
+            if names[k] not in l: continue
+            try:
+                e0 = dict(zip(names, x)); e0[names[k]] = _F(0); f0 = _exact_side(l, e0) - _exact_side(r, e0)
+                e1 = dict(e0); e1[names[k]] = _F(1); f1 = _exact_side(l, e1) - _exact_side(r, e1)
+                if f1 == f0: continue
+                x[k] = -f0 / (f1 - f0)                       # affine in x_k for the linear and product forms
+                ek = dict(zip(names, x))
+                if _exact_side(l, ek) != _exact_side(r, ek): continue      # (quotient form: not affine in the divisor)
+            except ZeroDivisionError:
+                continue
+            pts.append(x); onb += 1
+    seen, bad, judged_on_boundary = set(), [], 0
+    for x in pts:
+        a = exact_satisfied(text, names, x)
+        bs = [exact_satisfied(cc, names, x) for cc in cases]
+        if a is None or any(b is None for b in bs):
+            obs.event('points_not_judged'); continue
+        obs.event('points_judged'); seen.add(a)
+        env = dict(zip(names, x))
+        onbd = any(_exact_side(T.split(ln)[0], env) == _exact_side(T.split(ln)[2], env) for ln in lines)
+        if onbd: judged_on_boundary += 1
+        if a != any(bs) and len(bad) < 3:
+            bad.append({'x': [float(v) for v in x], 'input_holds': a, 'cases_hold': bs, 'on_a_boundary_of_the_input': onbd})
+    obs.event('exact_boundary_points_judged', judged_on_boundary)
+    obs.check(not bad, 'same:the rewritten system is satisfied by exactly the same points as the input', text=text, cases=list(cases), witnesses=bad, exact_arithmetic=True,
+              merged_to_not_equal=any('!=' in cc for cc in cases), equalities_in=0, equalities_out=[sum(1 for l in T.lines(cc) if T.split(l)[1] in ('=', '==')) for cc in cases])
+    obs.nontrivial = len(seen) == 2 and judged_on_boundary >= 3
+    obs.notes = {'cases': list(cases), 'boundary_points': judged_on_boundary}
+
+
 def run_hostile(kind, rng, obs):
     """classes outside the stated preconditions of the property's first sentence, kept to re-observe the recorded findings"""
     from mystic.symbolic import simplify
@@ -383,4 +484,4 @@ def run_case(cls, idx, rng, obs):
     np.seterr(all='ignore')
     if cls == 'hostile_zero_rhs': return run_hostile('zero_rhs', rng, obs)
     if cls == 'hostile_contradiction': return run_hostile('contradiction', rng, obs)
-    return {'linear': run_linear, 'rational': run_rational, 'solve': run_solve, 'matrix_text': run_matrix_text, 'mirror_pairs': run_mirror}[cls](rng, obs)
+    return {'linear': run_linear, 'rational': run_rational, 'solve': run_solve, 'matrix_text': run_matrix_text, 'mirror_pairs': run_mirror, 'exact_lattice': run_exact}[cls](rng, obs)
